@@ -375,13 +375,17 @@ def _work(args):
     if family in ('split', 'synth', 'manyslices', 'drift') and rr.random() < (0.35 if family == 'split' else 0.15):
         fuzz = f'{seed}:{family}:{k}'
         meta['kernel_fuzz'] = True
+    elif family in ('synth', 'chain', 'multi', 'bundle', 'drift', 'interleave', 'exact') and rr.random() < 0.12:
+        fuzz = f'{seed}:{family}:{k}+cluster'            # distorted clustering answers (merged / split / renumbered sets)
+        meta['kernel_fuzz'] = True
     try:
         obs = scenes.run_scene(rows, prms, index=index, route=route, kernel_fuzz=fuzz)
     except Exception as e:
         return {'meta': meta, 'harness_error': f'{type(e).__name__}: {e}'}
     out = {'meta': meta, 'exc': obs['exc'], 'stage': obs['stage'], 'exc_msg': obs.get('exc_msg'),
            'stats': dict(scenes.scene_stats(obs), **{'index_' + ikind: 1, 'route_' + route: 1, 'numpy_typed_prms': int(bool(meta.get('numpy_typed_prms'))),
-                                                       'mixture_answers_distorted': int(fuzz is not None)}), 'req': None, 'missing': obs['trace'].missing,
+                                                       'mixture_answers_distorted': int(fuzz is not None and not fuzz.endswith('+cluster')),
+                                                       'clustering_answers_distorted': int(fuzz is not None and fuzz.endswith('+cluster'))}), 'req': None, 'missing': obs['trace'].missing,
            'digest': hashlib.sha1(repr((rows, sorted(prms.items(), key=str))).encode()).hexdigest()[:16],
            'nrows': len(rows), 'prms': prms}
     if not obs['exc']:
